@@ -41,6 +41,9 @@ def plan(tier, seed):
     for i in range(3 if tier == 'quick' else 12):
         specs.append({'kind': 'big', 'count': 1 if tier == 'quick' else 3, 'nnames': (3000, 1500, 900)[i % 3]})
     specs.append({'kind': 'factory', 'n': 20000 if tier == 'quick' else 500000})
+    specs.append({'kind': 'keep_heads'})
+    for i in range(2 if tier == 'quick' else 8):
+        specs.append({'kind': 'reuse', 'count': 40 if tier == 'quick' else 200})
     return specs
 
 
@@ -173,6 +176,49 @@ def run_one(ctx, src, scopes, config, keep, workdir, cli=False):
                 check_mapping(ctx, pairs, 'default', [], case)
 
 
+def run_reuse(spec, ctx, workdir):
+    """HISTORY: one writer-args dict serves several minify runs while its keep file setting is pointed elsewhere, the file is
+    rewritten, or the option is dropped; every run is judged against the keep list in force for that run."""
+    from pico8.lua import lua
+    rng = ctx.rng
+    args = {}
+    kf = [os.path.join(workdir, 'keepA.txt'), os.path.join(workdir, 'keepB.txt')]
+    for i in range(spec['count']):
+        p = progen.gen_program(rng, {'depth': 2, 'max_stmts': 4})
+        src = layout.render(p, rng)
+        if src is None:
+            continue
+        names = sorted({p.toks[k][1] for k in p.names})
+        step = i % 4
+        keep = []
+        if step in (0, 1, 2):
+            keep = sorted(set([n for n in names if rng.random() < 0.4] + [b'a', b'b'][:rng.randint(0, 2)]))
+            which = kf[0] if step != 1 else kf[1]     # 0: file A; 1: another file; 2: file A rewritten
+            minify.write_keep_file(which, keep, rng)
+            args['keep_names_from_file'] = which
+            config = 'keep_file'
+            ctx.feature('reused_args:' + ('file_a', 'other_file', 'file_a_rewritten')[step])
+        else:
+            args.pop('keep_names_from_file', None)
+            config = 'default'
+            ctx.feature('reused_args:option_dropped')
+        case = {'src': src, 'config': config, 'keep': keep, 'history': 'reused writer args, step %d' % step}
+        ctx.case((src, 'reuse', step, tuple(keep)), nontrivial=len(names) >= 3)
+        try:
+            L = lua.Lua.from_lines([src], version=8)
+            out = b''.join(L.to_lines(writer_cls=lua.LuaMinifyTokenWriter, writer_args=args))
+        except Exception as e:
+            ctx.violation('luamin raised %r (reused writer args)' % (e,), case)
+            return
+        problem, pairs, info = minify.align(src, out, None)
+        if problem is not None:
+            ctx.feature('unaligned_output_skipped')
+            continue
+        ctx.monitor('reused_args_runs')
+        if not check_mapping(ctx, pairs, config, keep, case):
+            return
+
+
 def install_contract(ctx):
     """Online supporting monitor on the real MinifyNameFactory.get_short_name."""
     try:
@@ -288,6 +334,19 @@ def run_shard(spec, ctx):
                 run_one(ctx, src, p.scopes, config, keep, workdir, cli=spec.get('cli') and i % 5 == 0)
                 if i == 0:
                     ctx.sample({'source': src[:160], 'config': config, 'keep': keep})
+        elif spec['kind'] == 'keep_heads':
+            # every byte that may begin a name, as the first byte of a listed name (and as a one-byte name)
+            heads = [bytes([b]) for b in range(128, 256)] + [bytes([b]) for b in b'_abcdefghijklmnopqrstuvwxyzABCDEFGHIJKLMNOPQRSTUVWXYZ']
+            for grp in range(0, len(heads), 15):
+                hs = heads[grp:grp + 15]
+                names = []
+                for h in hs:
+                    names += [h, h + b'ter', h + h, h + b'\xbb' + h] if h[0] >= 128 else [h + b'ter_', h + b'q9']
+                src = b''.join(b'local %s=%d\n%s+=other_%d\n' % (n, k, n, k) for k, n in enumerate(names))
+                ctx.feature('keepfile_names_by_first_byte', len(hs))
+                run_one(ctx, src, None, 'keep_file', sorted(set(names)), workdir, cli=grp % 60 == 0)
+        elif spec['kind'] == 'reuse':
+            run_reuse(spec, ctx, workdir)
         elif spec['kind'] == 'big':
             for i in range(spec['count']):
                 big = big_program(rng, spec.get('nnames', 3000))
@@ -360,6 +419,9 @@ def gates(m, tier):
             missed.append('configuration %s used %d times' % (c, f.get('config:' + c, 0)))
     if mon.get('mappings_checked', 0) < 300:
         missed.append('mappings checked: %d' % mon.get('mappings_checked', 0))
+    if f.get('keepfile_names_by_first_byte', 0) < 181 or mon.get('reused_args_runs', 0) < 40:
+        missed.append('keep-file names by first byte: %d; runs with a reused writer-args dict: %d'
+                      % (f.get('keepfile_names_by_first_byte', 0), mon.get('reused_args_runs', 0)))
     if mon.get('cli_runs', 0) < 10:
         missed.append('cli runs: %d' % mon.get('cli_runs', 0))
     return missed
